@@ -221,7 +221,7 @@ def specPrivTail (c : Cfg) (u : Int) : List Step :=
   [ .sys .getgrall (hGuarded "" ""),
     .sys (.setgroups (groupList c)) (hGuarded "OSError" (msgSetuid u reasonGroups)),
     .sys (.setgid c.pwGid) (hGuarded "OSError" (msgSetuid u reasonGid)),
-    .sys (.setuid u) (hGuarded "" "") ]
+    .sys (.setuid u) (hGuarded "OSError" (msgSetuid u reasonUid)) ]
 
 def specPriv (c : Cfg) : List Step :=
   match c.uid with
@@ -257,7 +257,7 @@ theorem privSteps_eq (c : Cfg) : privSteps c = specPriv c := by
     have h3 : dpGuard "grp.getgrall" = "" := by decide
     have h4 : dpGuard "os.setgroups" = "OSError" := by decide
     have h5 : dpGuard "os.setgid" = "OSError" := by decide
-    have h6 : dpGuard "os.setuid" = "" := by decide
+    have h6 : dpGuard "os.setuid" = "OSError" := by decide
     simp only [setUid_g0, dropPriv_g0, dropPriv_g1, dropPriv_g2, specPrivTail, h1, h2, h3, h4, h5, h6,
       Option.isNone_some, Bool.false_eq_true, if_false, beq_iff_eq, bne_iff_ne, ne_eq]
 
@@ -271,5 +271,94 @@ theorem umaskSteps_eq (c : Cfg) : umaskSteps c = specUmask c := by
 
 theorem preSteps_eq (c : Cfg) : preSteps c = specSteps c := by
   simp only [preSteps, specSteps, fdSteps_eq, privSteps_eq, dirSteps_eq, umaskSteps_eq]
+
+/-- every preparing call in the log is the call of some step of the script -/
+theorem prep_calls_from_script (c : Cfg) (orc : Oracle) :
+    ∀ ev ∈ childLog c orc, ev.call.isPrep = true → ∃ h, Step.sys ev.call h ∈ specSteps c := by
+  intro ev hev hp
+  have hfin : ∀ a log, ev ∈ finish orc a log → ev ∈ log := by
+    intro a log h
+    obtain ⟨t, hf, ht⟩ := finish_shape orc a log
+    rw [hf] at h
+    simp only [List.mem_append] at h
+    rcases h with (h | h) | h
+    · exact h
+    · rcases ht with rfl | ⟨m, _, rfl⟩
+      · simp at h
+      · simp at h; subst h; simp [Call.isPrep] at hp
+    · simp [finalEvs] at h; rcases h with rfl | rfl <;> simp [Call.isPrep] at hp
+  have hd : ∀ d, FromSteps (specSteps c) d → ev ∈ d → ∃ h, Step.sys ev.call h ∈ specSteps c := by
+    intro d hfrom he
+    obtain ⟨c', h, hm, hc, _⟩ := hfrom ev he
+    exact ⟨h, by rw [hc]; exact hm⟩
+  unfold childLog at hev
+  rw [preSteps_eq] at hev
+  rcases run_cases orc (execStage c orc) (specSteps c) [] with
+    ⟨d, _, _, hfrom, hrun⟩ | ⟨d, c', h, f, hmem, hfrom, _, hrun⟩ | ⟨d, m, _, hfrom, hrun⟩
+  · rw [hrun] at hev
+    simp only [List.nil_append] at hev
+    unfold execStage at hev
+    split at hev
+    · rcases List.mem_append.mp hev with h | h
+      · exact hd d hfrom h
+      · simp at h; subst h; simp [execCall, Call.isPrep] at hp
+    · have := hfin _ _ hev
+      rcases List.mem_append.mp this with h | h
+      · exact hd d hfrom h
+      · simp at h; subst h; simp [execCall, Call.isPrep] at hp
+  · rw [hrun] at hev
+    have := hfin _ _ hev
+    simp only [List.nil_append, List.mem_append, List.mem_singleton] at this
+    rcases this with h' | h'
+    · exact hd d hfrom h'
+    · subst h'; exact ⟨h, hmem⟩
+  · rw [hrun] at hev
+    have := hfin _ _ hev
+    simp only [List.nil_append] at this
+    exact hd d hfrom this
+
+/-- the group/user-id calls are in the script only when a user is configured, and `setuid` is
+    called with that user -/
+theorem priv_step_has_uid (c : Cfg) (c' : Call) (h : Fail → Action) (hm : Step.sys c' h ∈ specSteps c)
+    (hc : (∃ gs, c' = .setgroups gs) ∨ (∃ g, c' = .setgid g) ∨ (∃ u, c' = .setuid u)) :
+    ∃ u, c.uid = some u ∧ ∀ u', c' = .setuid u' → u' = u := by
+  simp only [specSteps, specFd, specPriv, specPrivTail, specDir, specUmask, List.mem_append, List.mem_cons,
+    List.mem_map, List.mem_singleton] at hm
+  rcases hm with (((hm | hm) | hm) | hm) | hm
+  · rcases hm with hm | hm
+    · cases hm; simp at hc
+    · simp at hm
+  · rcases hm with (hm | hm) | hm
+    · split at hm
+      · simp at hm; rcases hm with ⟨rfl, _⟩; simp at hc
+      · simp at hm
+    · rcases hm with hm | hm | hm | hm
+      · cases hm; simp at hc
+      · cases hm; simp at hc
+      · cases hm; simp at hc
+      · simp at hm
+    · obtain ⟨fd, _, hfd⟩ := hm
+      cases hfd; simp at hc
+  · split at hm
+    · simp at hm
+    · rename_i u hu
+      refine ⟨u, hu, ?_⟩
+      simp only [List.mem_append, List.mem_cons] at hm
+      rcases hm with (hm | hm | hm) | hm
+      · cases hm; simp
+      · cases hm; simp
+      · simp at hm
+      · split at hm
+        · simp at hm
+        · split at hm
+          · simp at hm
+          · simp at hm
+            rcases hm with ⟨rfl, _⟩ | ⟨rfl, _⟩ | ⟨rfl, _⟩ | ⟨rfl, _⟩ <;> simp
+  · split at hm
+    · simp at hm; rcases hm with ⟨rfl, _⟩; simp at hc
+    · simp at hm
+  · split at hm
+    · simp at hm; rcases hm with ⟨rfl, _⟩; simp at hc
+    · simp at hm
 
 end Sv.Child
